@@ -18,7 +18,7 @@ def sh(cmd, cwd=None, timeout=3600):
 def main():
     pid, patch = sys.argv[1], os.path.abspath(sys.argv[2])
     res = {"property": pid, "patch": patch}
-    if "--no-suite" not in sys.argv:
+    if "--no-suite" not in sys.argv and "--check-only" not in sys.argv:
         wt = tempfile.mkdtemp(prefix="seedverify-", dir="/tmp")
         os.rmdir(wt)
         try:
@@ -40,6 +40,8 @@ def main():
         finally:
             sh("git -C /repo worktree remove --force %s" % wt)
             shutil.rmtree(wt, ignore_errors=True)
+    if "--suite-only" in sys.argv:
+        print(json.dumps(res, indent=1)); return
     # 2. the check against the patched tree
     rc, out = sh("git -C /repo status --porcelain")
     if out.strip():
